@@ -238,7 +238,7 @@ func (c *Conn) ReaderParked() bool {
 	h := c.r
 	h.mu.Lock()
 	defer h.mu.Unlock()
-	return h.readersWaiting > 0 && len(h.buf) == 0
+	return h.readersWaiting > 0 && len(h.buf) == 0 && !h.wclosed && !h.rclosed
 }
 
 // Unread is the number of bytes written towards this end and not yet read.
